@@ -128,6 +128,19 @@ class C08(core.Prop):
                 if b is None:
                     continue
             out.append({'a': a, 'b': b, 'noise': noise if k % 2 else []})
+        # schemas / tables / queries over the same fields in another order, with one kind changed, or identical
+        for _ in range(max(12, n // 25)):
+            names = rng.sample(['f1', 'f2', 'f3', 'f4'], rng.randint(2, 4))
+            fields = [[nm, rng.choice(['int', 'str', 'float'])] for nm in names]
+            other = copy.deepcopy(fields)
+            r = rng.random()
+            if r < 0.5:
+                while other == fields:
+                    rng.shuffle(other)
+            elif r < 0.75:
+                other[rng.randrange(len(other))][1] = 'bool'
+            wrap = rng.choice(['schema', 'stable', 'squery'])
+            out.append({'a': [wrap, fields], 'b': [wrap, other], 'noise': []})
         for x, y in COLLIDING:
             out.append({'a': ['lit', x], 'b': ['lit', y], 'noise': []})
             out.append({'a': ['bin', '+', ['col', 'A', 'x'], ['lit', x]], 'b': ['bin', '+', ['col', 'A', 'x'], ['lit', y]], 'noise': []})
